@@ -440,7 +440,12 @@ let oracle_only_cases oc r =
   List.iter (fun s -> raw oc "oracle-only" ~tpls:mac s fixed_ctx) [
     "{% import 'macros' as mm %}{{ mm.kv(m) }}|{{ mm.kv(n) }}|{{ mm.ks(p, '+') }}";
     "{% from 'macros' import kv, ks %}{{ kv(o.x) }}{{ ks(m|merge({'zz': 1}), ',') }}";
-    "{% macro here(x) %}{% for k in x|keys %}<{{ k }}>{% endfor %}{% endmacro %}{{ here(m) }}{{ _self.here(n) }}" ];
+    "{% macro here(x) %}{% for k in x|keys %}<{{ k }}>{% endfor %}{% endmacro %}{{ here(m) }}{{ _self.here(n) }}";
+    (* several defaulted parameters, some defaults naming other parameters or variables of the caller with the
+       names of parameters: whatever the order in which an implementation fills them in, there is one answer *)
+    "{% set w = 3 %}{% set h = 4 %}{% macro box(w = 10, h = w, d = h, t = w ~ h ~ d) %}{{ w }}x{{ h }}x{{ d }}:{{ t }}{% endmacro %}{{ box() }}|{{ box(1) }}|{{ box(1, 2) }}|{{ _self.box() }}";
+    "{% set a = 'A' %}{% macro m6(a = 'a', b = a, c = b, d = c, e = d, f = e) %}{{ a }}{{ b }}{{ c }}{{ d }}{{ e }}{{ f }}{% endmacro %}{{ m6() }}|{{ m6('x') }}|{{ m6('x', 'y') }}";
+    "{% macro pair(k = 'k', v = k ~ '!', z = v ~ k) %}{{ k }}{{ v }}{{ z }}{% endmacro %}{% for i in [1, 2, 3] %}{{ pair() }}{{ pair(i) }}{% endfor %}" ];
   (* blocks and inheritance: named blocks are kept in Go maps *)
   let inh = [ ("base", "{% block c %}C{% endblock %}|{% block a %}A{% endblock %}|{% block b %}B{% endblock %}|{% block d %}D{% for k, v in m %}{{ k }}{% endfor %}{% endblock %}");
               ("mid", "{% extends 'base' %}{% block b %}b2{{ parent() }}{% endblock %}{% block a %}a2{% endblock %}") ] in
